@@ -136,9 +136,17 @@ class FakeSocket:
         kw["s"] = self.sid
         self.net.log.append(kw)
 
+    def _io_defaults(self, op):
+        """an I/O attempt that never reached the wire still carries every field the contract reads"""
+        if op == "send":
+            return dict(c=self.net.call_id, tmo=self.tmo, n=0, ncmd=0, nrep=0, nerr=0)
+        if op == "recv":
+            return dict(c=self.net.call_id, tmo=self.tmo, n=0, own=[])
+        return {}
+
     def _check_usable(self, op):
         if self.state in ("closed", "detached"):
-            self._ev(op, fault="use-after-" + self.state)
+            self._ev(op, **self._io_defaults(op), fault="use-after-" + self.state)
             raise OSError(errno.EBADF, "Bad file descriptor")
 
     # -- socket API --
@@ -177,7 +185,7 @@ class FakeSocket:
     def sendall(self, data):
         self._check_usable("send")
         if self.state != "connected":
-            self._ev("send", fault="not-connected")
+            self._ev("send", **self._io_defaults("send"), fault="not-connected")
             raise OSError(errno.ENOTCONN, "not connected")
         f = self._fault("sendall")
         n0 = self.net.cmd_counter
@@ -186,10 +194,13 @@ class FakeSocket:
             # an asynchronous interrupt surfaces when the call returns: the bytes are already out
             self.net.wire_log.append((self.sid, bytes(data)))
             self.conn.receive(bytes(data))
-        elif f == "partial":
+        elif f == "partial" or (isinstance(f, tuple) and f[0] == "half"):
+            # part of the request is out when the timeout strikes / the interruption (("half", kind)) arrives
             half = bytes(data)[: max(1, len(data) // 2)]
             self.net.wire_log.append((self.sid, half))
             self.conn.receive(half)
+            if isinstance(f, tuple):
+                f = f[1]
         new = self.net.sent_cmds[len(self.net.sent_cmds) - (self.net.cmd_counter - n0):] if self.net.cmd_counter > n0 else []
         nrep = sum(1 for c in new if "error" in c or not c.get("noreply"))
         self._ev("send", c=self.net.call_id, tmo=self.tmo, n=len(data), ncmd=self.net.cmd_counter - n0,
@@ -206,7 +217,7 @@ class FakeSocket:
     def recv(self, size):
         self._check_usable("recv")
         if self.state != "connected":
-            self._ev("recv", fault="not-connected")
+            self._ev("recv", **self._io_defaults("recv"), fault="not-connected")
             raise OSError(errno.ENOTCONN, "not connected")
         f = self._fault("recv")
         if f == "eintr":
@@ -251,6 +262,10 @@ class FakeSocket:
 
     def close(self):
         f = self._fault("close") if self.state not in ("closed", "detached") else None
+        if isinstance(f, tuple) and f[0] == "pre":
+            # the interruption arrives inside close() BEFORE the descriptor is closed: the socket stays open
+            self._ev("closeintr", fault=f[1])
+            raise make_exc(f[1])
         if self.state == "detached":
             self._ev("close", fault="detached")
             return
